@@ -315,7 +315,7 @@ def _build(spec, order):
     return t
 
 
-def _topo_case(kinds, sites, inslice):
+def _topo_case(kinds, sites, inslice, all_orders=True):
     import itertools as _it
     spec = list(zip(kinds, sites, inslice))
     exp_ext = {}
@@ -325,7 +325,8 @@ def _topo_case(kinds, sites, inslice):
             continue
         exp_ext.setdefault(attr, set()).add(TSITES[si])
     first = None
-    for order in _it.permutations(range(len(spec))):
+    orders = list(_it.permutations(range(len(spec)))) if all_orders else [tuple(range(len(spec))), tuple(reversed(range(len(spec))))]
+    for order in orders:
         t = _build(spec, order)
         ra = RA()
         ra.collect_resource_attributes(source=t)
@@ -359,19 +360,31 @@ def _ck(v, bound):
     raise ValueError
 
 
-@harness("topology_level_services_any_creation_order", timeout=900, encodes=ENC_T,
-         bounds="real slice built through the topology API (2 VMs with smart NICs on 2 sites, facility, bridge giving an in-slice port) + 3 services, each "
-                "kind in {port mirror, FABNetv4Ext, FABNetv6Ext, L2STS}, site in 2, mirror of the in-slice port or of an external one (all symbolic "
-                "indices); every creation order (3!); authorization attributes and accounting counts vs tally. The slice code runs with tracing off "
-                "once the indices are resolved.")
-def h_topo(k0: int, k1: int, k2: int, s0: int, s1: int, s2: int, i0: bool, i1: bool, i2: bool) -> bool:
-    """
-    pre: 0 <= k0 < 4 and 0 <= k1 < 4 and 0 <= k2 < 4 and 0 <= s0 < 2 and 0 <= s1 < 2 and 0 <= s2 < 2
-    post: R(_)
-    """
-    begin()
-    KINDS = ['mirror', 'v4ext', 'v6ext', 'l2sts']
-    kinds = [KINDS[_ck(k, 4)] for k in (k0, k1, k2)]
-    sites = [_ck(s, 2) for s in (s0, s1, s2)]
-    ins = [bool(i0) and kinds[0] == 'mirror', bool(i1) and kinds[1] == 'mirror', bool(i2) and kinds[2] == 'mirror']
-    return untraced(_topo_case, kinds, sites, ins)
+def _mk_topo(k0, all_orders):
+    def h_topo(k1: int, s0: int, s1: int, s2: int, i0: bool, i1: bool) -> bool:
+        """
+        pre: 0 <= k1 < 4 and 0 <= s0 < 2 and 0 <= s1 < 2 and 0 <= s2 < 2
+        post: R(_)
+        """
+        begin()
+        KINDS = ['mirror', 'v4ext', 'v6ext', 'l2sts']
+        k1c = _ck(k1, 4)
+        if k1c < k0:
+            return True       # unordered pair of kinds: covered by the harness of the smaller kind
+        kinds = [KINDS[k0], KINDS[k1c], 'mirror']          # + a third, external mirror service on a symbolic site
+        sites = [_ck(s, 2) for s in (s0, s1, s2)]
+        ins = [bool(i0) and kinds[0] == 'mirror', bool(i1) and kinds[1] == 'mirror', False]
+        return untraced(_topo_case, kinds, sites, ins, all_orders)
+    return h_topo
+
+
+for _k0, _kn in enumerate(['mirror', 'v4ext', 'v6ext', 'l2sts']):
+    if _k0 == 0:
+        add("topology_level_services_two_creation_orders/" + _kn, _mk_topo(_k0, False), timeout=600, encodes=ENC_T, tiers=("quick",),
+            bounds="as topology_level_services_any_creation_order/mirror with the given and the reversed creation order only")
+    add("topology_level_services_any_creation_order/" + _kn, _mk_topo(_k0, True), timeout=1500, encodes=ENC_T,
+        tiers=("thorough",),
+        bounds="real slice built through the topology API (2 VMs with smart NICs on 2 sites, facility, bridge giving an in-slice port) + a %s service, a "
+               "second service of symbolic kind in {port mirror, FABNetv4Ext, FABNetv6Ext, L2STS} and a third external port mirror; sites symbolic (2), "
+               "mirrors of the in-slice port or of an external one symbolic; every creation order (3!); authorization attributes and accounting counts "
+               "vs tally; the slice code runs with tracing off once the indices are resolved" % _kn)
